@@ -45,7 +45,7 @@ func propConfigs() map[string]*PropConfig {
 		Redirect: map[string]string{"github.com/cosmos72/gomacro/gls.GoID": "vhModelGoID"},
 		Explain: "the real Code.Exec / exec / execWithFlags / reExecWithFlags executor loops, spinInterrupt, Run.interrupt, Run.applyAsyncSignal, restore and base.Signals.IsEmpty are executed symbolically on compiled-code lists made of harness statements; the statement call at which the asynchronous interrupt arrives is enumerated over every position of the unrolled loops"})
 	add(&PropConfig{ID: "C07", Prefix: "VH_C07_", Sets: []HarnessSet{hfiles("fast", fastLib, "fast/c19.go", "fast/c06.go", "fast/c13.go", "fast/c07.go")},
-		Redirect: map[string]string{"github.com/cosmos72/gomacro/gls.GoID": "vhModelGoID"},
+		Redirect: map[string]string{"github.com/cosmos72/gomacro/gls.GoID": "vhModelGoID", "(*github.com/cosmos72/gomacro/fast.Comp).expr1": "vhModelExpr1", "(*github.com/cosmos72/gomacro/fast.Comp).prepareCall": "vhModelPrepareCall"},
 		Explain: "the real callRecover, pushDefer, popDefer, maybeRepanic and the defer machinery of reExecWithFlags (rundefer) are executed symbolically on function bodies made of harness statements; which calls panic / recover is symbolic"})
 	add(&PropConfig{ID: "C12", Prefix: "VH_C12_", Sets: []HarnessSet{hfiles("fast", fastLib, "fast/c19.go", "fast/c06.go", "fast/c13.go", "fast/c07.go")},
 		Redirect: map[string]string{"github.com/cosmos72/gomacro/gls.GoID": "vhModelGoID", "(*github.com/cosmos72/gomacro/fast.Interp).PrepareEnv": "vhModelPrepareEnv"},
